@@ -89,6 +89,7 @@ def plumbing(ctx: Ctx, clause: str = "S1", g3: bool = True, g4: bool = True):
         R_args.g4_affix(ctx.pkg, ctx.res, funcs, ctx.col, clause)
         R_args.g4_strip_matched(ctx.pkg, funcs, ctx.col, clause)
     R_args.g16_stale_loop_vars(ctx.pkg, funcs, ctx.col, clause)
+    R_args.g44_init_stores_own_formal(ctx.pkg, funcs, ctx.col, clause)
     from rules import fwd as _R_fwd
     _R_fwd.g5_super_init(ctx.pkg, ctx.res, funcs, ctx.col, clause)
     hazards(ctx, funcs, clause)
